@@ -138,6 +138,7 @@ type Exec struct {
 	iters     map[ssa.Value]*ssa.Range
 	speculating int
 	curLoop   *loopRec
+	pendingAlloc [][2]string
 	immutNames map[string]bool
 	subAddrIDs map[string]int
 	recBusy map[string]bool
@@ -627,6 +628,9 @@ func (x *Exec) frameInvariants(fr *Frame, l *loopRec) []linv {
 	for n := range lms.cellPts {
 		names[n] = lms.psort[n]
 	}
+	for n, s := range lms.freshHeap {
+		names[n] = s
+	}
 	for n := range lms.points {
 		names[n] = lms.psort[n]
 	}
@@ -881,20 +885,45 @@ func (x *Exec) addrOf(fr *Frame, v ssa.Value) Addr {
 
 func isCellAlloc(a *ssa.Alloc) bool {
 	t := a.Type().(*types.Pointer).Elem()
-	if isStructT(t) || isArrayT(t) {
+	if isArrayT(t) {
 		return false
 	}
-	for _, r := range *a.Referrers() {
+	return onlyLoadStore(a, isStructT(t))
+}
+
+// onlyLoadStore: the address is used only to load / store (and, for struct values, to address
+// fields that are themselves only loaded / stored): the variable can live in the symbolic store.
+func onlyLoadStore(v ssa.Value, allowFields bool) bool {
+	refs := v.Referrers()
+	if refs == nil {
+		return false
+	}
+	for _, r := range *refs {
 		switch u := r.(type) {
 		case *ssa.UnOp:
 			if u.Op != token.MUL {
 				return false
 			}
 		case *ssa.Store:
-			if u.Val == ssa.Value(a) {
+			if u.Val == v {
 				return false
 			}
-		case *ssa.MakeClosure, *ssa.DebugRef:
+		case *ssa.MakeClosure:
+			if allowFields {
+				return false // captured struct variables stay on the heap
+			}
+		case *ssa.DebugRef:
+		case *ssa.FieldAddr:
+			if !allowFields {
+				return false
+			}
+			ft := u.Type().(*types.Pointer).Elem()
+			if isArrayT(ft) {
+				return false
+			}
+			if !onlyLoadStore(u, isStructT(ft)) {
+				return false
+			}
 		default:
 			return false
 		}
@@ -1026,6 +1055,11 @@ func (x *Exec) execInstr(fr *Frame, st *State, in ssa.Instruction, predPC map[*s
 		base := x.addrOf(fr, i.X)
 		pt := i.X.Type().Underlying().(*types.Pointer).Elem()
 		su := pt.Underlying().(*types.Struct)
+		if base.K == AKCell {
+			lo, hi := x.fieldRange(su, i.Field)
+			fr.addrs[i] = Addr{K: AKCell, Cell: base.Cell, Lo: base.Lo + lo, Hi: base.Lo + hi, T: su.Field(i.Field).Type()}
+			return
+		}
 		ref := base.Ref
 		if base.K == AKField {
 			ref = x.subAddr(base.ST, base.Field, base.Ref)
